@@ -22,7 +22,7 @@ DoubleNonNull(t) == t.k # "named" /\ ((t.k = "nonnull" /\ t.of.k = "nonnull") \/
 \* names: [_A-Za-z][_0-9A-Za-z]*, not starting with "__".  The universes use these representatives.
 \* (a digit first; punctuation first - only a schema built in Go can have such a name, SDL text does not get that far; a
 \* character in the middle that no name has)
-BadNames == {"9lives", "7", "-lead", "$x", "%V", "a-b", "-d", "-a"}
+BadNames == {"9lives", "7", "-lead", "$x", "%V", "a-b", "-d", "-a", "{OMEGA}mega", "caf{E}"}   \* ({OMEGA}, {E}: a Greek capital, e-acute; the harness writes them)
 ReservedNames == {"__Secret", "__f", "__a", "__V"}
 NameViols(kind, n) ==
   (IF n \in BadNames THEN {Viol("bad_name", n)} ELSE {}) \cup (IF n \in ReservedNames THEN {Viol("reserved_name", n)} ELSE {})
